@@ -2172,14 +2172,12 @@ class RawAlgorithmsMixIn:
                 for p in range(P):
                     tmp = lam_data[0,p,n] - lam_data[0,p,m]
                     if numpy.abs(tmp) > 1e-8:
-                        for d in range(D):
-                            H[d,p,m,n] = 1./tmp
-                # tmp = lam_data[:,:,n] -   lam_data[:,:,m]
-                # cls._truediv(Id, tmp, out = H[:,:,m,n])
+                        # H = 1/(lam_n - lam_m) as a Taylor polynomial, not only its zeroth coefficient
+                        cls._truediv(Id[:,p:p+1], lam_data[:,p:p+1,n] - lam_data[:,p:p+1,m], out = H[:,p:p+1,m,n])
 
         # STEP 2: compute Lbar +  H * Q^T Qbar
         cls._dot(cls._transpose(Q_data), Qbar_data, out = tmp1)
-        tmp1[...] *= H[...]
+        tmp1[...] = cls._mul(tmp1, H)
         tmp1[...] += Lambar_data[...]
 
         # STEP 3: compute Q ( Lbar +  H * Q^T Qbar ) Q^T
